@@ -15,6 +15,8 @@ pub enum B {
     /// Key order is kept as given (so that non-canonical encodings can be produced);
     /// `canonical()` sorts.
     Dict(Vec<(Vec<u8>, B)>),
+    /// Bytes emitted verbatim (never produced by the decoder; used to build malformed input).
+    Raw(Vec<u8>),
 }
 
 impl B {
@@ -113,6 +115,7 @@ impl B {
                 out.push(b':');
                 out.extend_from_slice(b);
             }
+            B::Raw(r) => out.extend_from_slice(r),
             B::List(l) => {
                 out.push(b'l');
                 for item in l {
